@@ -54,11 +54,18 @@ func (f *Sxhash) Call(s *slip.Scope, args slip.List, depth int) (result slip.Obj
 // hashData returns simple data for an object such that objects that are equal
 // have the same data. Strings and symbols are equal when they only differ in
 // case as determined by strings.EqualFold() so each rune is replaced by the
-// lowest rune that folds to it.
+// lowest rune that folds to it. Real numbers are equal when they have the same
+// value after converting to the less precise type of the two so the value as
+// a single-float, the least precise type, is used.
 func hashData(obj slip.Object) any {
 	switch to := obj.(type) {
 	case nil:
 		return nil
+	case slip.Real:
+		if f := float32(to.RealValue()); f != 0.0 { // -0.0 is equal to 0
+			return float64(f)
+		}
+		return 0.0
 	case slip.String:
 		return strings.Map(foldRune, string(to))
 	case slip.Symbol:
